@@ -15,6 +15,7 @@ def frac(s):
 
 def gen_env(rng, nmax, nstd):
     n = rng.randint(1, nmax)
+    tidy = rng.random() < 0.4      # prefixes and multipliers only on children of exponent 1 (where the scale is the SI scale)
     env = []           # ('c', [(kind, j, pfx, exp, lg)]) | ('a', j)
     basechain = []     # does entry i count as a base unit for isBaseUnit() (childless, possibly through aliases)?
     for i in range(n):
@@ -29,6 +30,10 @@ def gen_env(rng, nmax, nstd):
             for _ in range(rng.randint(1, 4)):
                 exp = rng.choice(EXPS)
                 carr = rng.random() < 0.5
+                if tidy and carr and rng.random() < 0.8:
+                    exp = '1'
+                elif tidy and exp != '1':
+                    carr = False
                 pfx = rng.choice(PFX) if carr else 0
                 lg = rng.choice([0, 0, 0, 1, -1, 2, -3, 3]) if carr else 0
                 if i > 0 and rng.random() < 0.55:
@@ -67,6 +72,28 @@ def reference(env, stds, nbase, dimless):
     def norm(v):
         return {k: e for k, e in v.items() if e != 0 and k != dimless}
     return [norm(v) for v in vecs]
+
+
+def reference_scale(env, stdmult):
+    """independent reference: log10 of the scale of every entry w.r.t. its base units, exact fractions"""
+    sc = []
+    for d in env:
+        if d[0] == 'a':
+            sc.append(sc[d[1]])
+        else:
+            sc.append(sum(((stdmult[j] if kind == 's' else sc[j]) + pfx) * frac(exp) + lg for kind, j, pfx, exp, lg in d[1]) if d[1] else Fraction(0))
+    return sc
+
+
+def exp_one_carriers(env):
+    """per entry: do prefixes and multipliers sit on children of exponent 1, here and in everything referenced?"""
+    ok = []
+    for d in env:
+        if d[0] == 'a':
+            ok.append(ok[d[1]])
+        else:
+            ok.append(all((frac(exp) == 1 or (pfx == 0 and lg == 0)) and (kind == 's' or ok[j]) for kind, j, pfx, exp, lg in d[1]))
+    return ok
 
 
 def run(chk, replay=None):
@@ -127,6 +154,7 @@ def run(chk, replay=None):
         if metas[li]:
             env, qs = metas[li]
             ref = reference(env, stds, nbase, dimless)
+            refsc = reference_scale(env, stdmult); expone = exp_one_carriers(env)
         for qi, (a, b) in enumerate(zip(xi, yi)):
             nq += 1
             ta, tb = a.split(), b.split()
@@ -154,6 +182,14 @@ def run(chk, replay=None):
                     return ref[i] if i < len(ref) else None
                 va, vb = vec(qs[qi][0]), vec(qs[qi][1])
                 expect = va is not None and vb is not None and va == vb
+                # the scale of each operand is the sum over its children of multiplier + exponent x (prefix + scale of the referenced units) (CellML: multiplier x (prefix x u)^exponent); compared where prefixes and multipliers sit on children of exponent 1, as the property says,
+                # whatever the order of the children
+                for op, got in ((qs[qi][0], ta[2]), (qs[qi][1], ta[3])):
+                    m = re.match(r'\((\w)(?: (\d+))?\)', op)
+                    if m.group(1) == 'u' and int(m.group(2)) < len(refsc) and got != 'none' and expect and expone[int(m.group(2))]:
+                        hist['scales_checked'] = hist.get('scales_checked', 0) + 1
+                        if Fraction(got) != refsc[int(m.group(2))]:
+                            orafail.append((l, 'query %d %s: the log10 scale of %s is %s but its definition gives %s' % (qi, qs[qi], op, got, refsc[int(m.group(2))])))
                 if (ta[0] == '1') != expect:
                     orafail.append((l, 'query %d %s: Units::compatible=%s but the base-unit exponents %s vs %s say %s' % (qi, qs[qi], ta[0], va, vb, expect)))
     chk.cov.update(evaluations=nq, distinct_nontrivial=len(set(lines)),
